@@ -536,6 +536,34 @@ func genC12(e *emitter, tier string, seed uint64) {
 		res := e.run("C12.fund", descTx(tx), fqs, h)
 		e.note("fund." + strings.Fields(res)[0])
 	}
+	// starting transactions that already hold *unlocked* inputs spending inscription outputs (and plain P2PKH ones), the
+	// unlocking scripts far from the 107-byte dummy: the estimate must size them as they are, so the deficit handed to the
+	// supplier and the stopping point move with their length (rates of one satoshi per byte and more make every byte count)
+	for i := 0; i < n/6+20; i++ {
+		tx := genFeeTx(r, 0, 1+r.n(3), 0, 0)
+		for j := 0; j < 1+r.n(2); j++ {
+			prev := tmplInscription(r)
+			if r.chance(30) {
+				prev = p2pkhScript(r)
+			}
+			in := mkInput(r.bytes(32), uint32(r.n(5)), nil, 0xffffffff, uint64(r.n(3000)), scr(prev))
+			in.UnlockingScript = scr(r.bytes([]int{1, 50, 106, 108, 139, 200, 400}[r.n(7)]))
+			tx.Inputs = append(tx.Inputs, in)
+		}
+		fqs := []string{"1/1,1/1", "2/1,2/1", "7/3,1/2", "10/1,1/1", "3/2,0/1"}[r.n(5)]
+		var hist []string
+		for s := 0; s < 1+r.n(4); s++ {
+			k := 1 + r.n(2)
+			var us []string
+			for j := 0; j < k; j++ {
+				us = append(us, utxo([]int{1, 50, 200, 500, 5000}[r.n(5)], false))
+			}
+			hist = append(hist, "b="+strings.Join(us, "|"))
+		}
+		res := e.run("C12.fund", descTx(tx), fqs, strings.Join(hist, ";"))
+		e.note("fund.unlocked-inscription-start")
+		e.note("fund." + strings.Fields(res)[0])
+	}
 	// precise landings: after each batch the input total sits at a chosen distance from "outputs + standard fee", inside and
 	// on either edge of the window that the data part of the fee opens (transactions with data outputs, non-zero data rate)
 	m := 40
